@@ -457,6 +457,18 @@ func distributeExtraSpace(context *layoutContext, affectedSizes, affectedTracksT
 	}
 }
 
+// positionedChildren returns the keys of [childrenPositions] in the order
+// of the children of the grid container (map iteration order is random)
+func positionedChildren(containingBlock bo.Box, childrenPositions map[Box]rect) []Box {
+	out := make([]Box, 0, len(childrenPositions))
+	for _, child := range containingBlock.Box().Children {
+		if _, has := childrenPositions[child]; has {
+			out = append(out, child)
+		}
+	}
+	return out
+}
+
 // direction : 'x' or 'y'
 func resolveTracksSizes(context *layoutContext, sizingFunctions [][2]pr.DimOrS, boxSize pr.MaybeFloat, childrenPositions map[Box]rect,
 	implicitStart int, direction byte, gap pr.Float,
@@ -500,7 +512,9 @@ func resolveTracksSizes(context *layoutContext, sizingFunctions [][2]pr.DimOrS, 
 	// TODO: Shim items.
 	// 1.2.2 Size tracks to fit non-spanning items.
 	tracksChildren := make([][]Box, len(tracksSizes))
-	for child, rect := range childrenPositions {
+	orderedChildren := positionedChildren(containingBlock, childrenPositions)
+	for _, child := range orderedChildren {
+		rect := childrenPositions[child]
 		x, y, width, height := rect.unpack()
 		coord, size := y, height
 		if direction == 'x' {
